@@ -9,7 +9,7 @@
 //! pair/raw input: {"cfg":[[rfs,rbs,rfc,wfs],[..]], "caps":[{"accept":[[cap,max]..],"connect":[..]},{..}], "ops":[..]}
 //! ops: ["open",side,kind,cap,slot] (kind 0 = accept queue, 1 = connect queue)
 //!      ["write",slot,n] ["flush",slot] ["read",slot,n] ["dropw",slot] ["dropr",slot]
-//!      ["rawframe",hdr,lenfield(-1 = none),nbytes] ["rawbytes",[..]] ["rawclose"]
+//!      ["rawframe",hdr,lenfield(-1 = none),nbytes] ["rawbytes",[..]] ["rawrepeat",[pattern],count] ["rawclose"]
 //! After the start-up and after every op the runtime is drained to quiescence and one observation is
 //! taken: [events, frames written by A, frames written by B, bytes pulled by A, by B, status].
 use std::{
@@ -516,6 +516,20 @@ async fn run_script(c: &Value) -> Value {
                         .iter()
                         .map(|b| b.as_u64().unwrap() as u8)
                         .collect();
+                    if let Some(e) = raw_end.as_mut() {
+                        e.write_all(&bytes).await.unwrap();
+                    }
+                }
+                "rawrepeat" => {
+                    // ["rawrepeat", [pattern bytes], count]: the pattern written `count` times in one go
+                    let pat: Vec<u8> = op[1]
+                        .as_array()
+                        .unwrap()
+                        .iter()
+                        .map(|b| b.as_u64().unwrap() as u8)
+                        .collect();
+                    let n = u64_of(&op[2]) as usize;
+                    let bytes: Vec<u8> = pat.iter().cycle().take(pat.len() * n).cloned().collect();
                     if let Some(e) = raw_end.as_mut() {
                         e.write_all(&bytes).await.unwrap();
                     }
